@@ -350,10 +350,10 @@ def wl_operators(ctx, idx, rng):
         res, exc = ctx.call(o, op, sig, expect="any")
     elif op in (operator.iadd, operator.imul, operator.isub):
         # chains of in-place operators: the same object must come back, keeping its metadata
-        if use_dask:
-            return
         with probes.quiet():
             m0 = monitors.meta_of(sig)
+        # the signal has been converted to an array before (anything the conversion leaves behind must not outlive the in-place ops)
+        conv0, _ = ctx.call("asarray", lambda: np.asarray(sig), where="asarray before in-place chain")
         tgt = sig
         ok = True
         for _ in range(3):
@@ -381,7 +381,14 @@ def wl_operators(ctx, idx, rng):
                     ctx.violation(o, f"in-place chain changed {key}", None, {"what": "inplace_meta"})
             if not np.array_equal(y, ref, equal_nan=True):
                 ctx.violation(o, "in-place chain result differs from the same chain on the array", None, {"what": "inplace_value"})
-            ctx.bucket("inplace", op.__name__, clsname)
+            for lab, conv in (("np.asarray", lambda: np.asarray(sig)), ("np.array", lambda: np.array(sig)),
+                              ("np.array(dtype=)", lambda: np.array(sig, dtype=sig.dtype, copy=True))):
+                c1, e1 = ctx.call("asarray", conv, where=lab + " after in-place chain")
+                ctx.count("oracle[asarray_after_inplace]")
+                if e1 is None and not (isinstance(c1, np.ndarray) and c1.shape == y.shape and np.array_equal(c1, y, equal_nan=True)):
+                    ctx.violation("asarray", f"{lab}(signal) after a chain of in-place operators does not yield the signal's current data "
+                                             f"(Dask-backed: {use_dask})", None, {"what": "asarray_stale", "dask": use_dask})
+            ctx.bucket("inplace", op.__name__, clsname, "dask" if use_dask else "np")
         return
     else:
         res, exc = ctx.call(o, op, sig, other, expect="any")
